@@ -119,9 +119,15 @@ class Decimal(SimpleModel):
 
         msl = kwargs.get('max_str_len', None)
         if msl is None:
-            kwargs['max_str_len'] = cls.Attributes.total_digits + 2
-            # + 1 for decimal separator
-            # + 1 for negative sign
+            # when not told otherwise, the customized class keeps the limit of
+            # the class it's derived from ...
+            kwargs.pop('max_str_len', None)
+
+            # ... unless the number of digits is what's being customized.
+            if td is not None:
+                kwargs['max_str_len'] = td + 2
+                # + 1 for decimal separator
+                # + 1 for negative sign
 
         else:
             kwargs['max_str_len'] = msl
